@@ -100,4 +100,126 @@ Section SpecProofs.
   Corollary run_spec_length q sigs :
     req_wf c q -> run H sig zero_sig P E Sv q = Ok sigs -> length sigs = length (request_items q).
   Proof. intros Hwf Hrun. rewrite (run_spec q sigs Hwf Hrun). apply map_length. Qed.
+
+  (* ---------------------------------------------------------------------------------------- *)
+  (* Kind by kind, with the specification's domain type, epoch and object root spelled out.     *)
+
+  Local Notation csr := (compute_signing_root H).
+  Local Notation spe := (ch_spe c).
+  Local Notation RUN := (run H sig zero_sig P E Sv).
+
+  Lemma attestation_spec a d sigs :
+    ad_target_epoch d = ad_slot d / spe ->
+    RUN (ReqAttestation a d) = Ok sigs ->
+    sigs = [sign (a_key a) (csr (htr_att_data H d) (get_domain H c DOMAIN_BEACON_ATTESTER (ad_target_epoch d)))]
+    /\ a_fail a = false.
+  Proof.
+    intros Hwf Hrun. cbn [run] in Hrun. unfold one in Hrun.
+    destruct (sign_attestation _ _ _ _ _ _ _) as [s| |] eqn:Hs; try discriminate.
+    injection Hrun as <-. apply sign_attestation_ok in Hs as (domain & Hd & -> & Hf).
+    cbn [p_domain spec_provider] in Hd. injection Hd as <-. split; [|exact Hf]. spec_norm. rewrite Hwf. reflexivity.
+  Qed.
+
+  Lemma attestations_spec accs slot idxs bbr se sr te tr sigs :
+    te = slot / spe ->
+    RUN (ReqAttestations accs slot idxs bbr se sr te tr) = Ok sigs ->
+    sigs = map (fun it => exp (fst it) (csr (htr_att_data H (AttData slot (snd it) bbr se sr te tr))
+                                            (get_domain H c DOMAIN_BEACON_ATTESTER te)))
+               (combine accs idxs).
+  Proof.
+    intros Hwf Hrun. cbn [run] in Hrun. apply sign_attestations_ok in Hrun as (domain & Hd & _ & _ & ->).
+    cbn [p_domain spec_provider] in Hd. injection Hd as <-. subst te. apply map_ext. intros [a idx]. spec_norm. reflexivity.
+  Qed.
+
+  Lemma proposal_spec a h sigs :
+    RUN (ReqProposal a h) = Ok sigs ->
+    sigs = [sign (a_key a) (csr (htr_block_header H h) (get_domain H c DOMAIN_BEACON_PROPOSER (bh_slot h / spe)))]
+    /\ a_fail a = false.
+  Proof.
+    intros Hrun. cbn [run] in Hrun. unfold one in Hrun.
+    destruct (sign_proposal _ _ _ _ _ _ _) as [s| |] eqn:Hs; try discriminate.
+    injection Hrun as <-. apply sign_proposal_ok in Hs as (domain & Hd & -> & Hf).
+    cbn [p_domain spec_provider] in Hd. injection Hd as <-. split; [|exact Hf]. spec_norm. reflexivity.
+  Qed.
+
+  Lemma randao_spec a slot sigs :
+    RUN (ReqRandao a slot) = Ok sigs ->
+    sigs = [sign (a_key a) (csr (u64_chunk (slot / spe)) (get_domain H c DOMAIN_RANDAO (slot / spe)))]
+    /\ a_fail a = false.
+  Proof.
+    intros Hrun. cbn [run] in Hrun. unfold one in Hrun.
+    destruct (sign_randao _ _ _ _ _ _ _) as [s| |] eqn:Hs; try discriminate.
+    injection Hrun as <-. apply sign_randao_ok in Hs as (domain & Hd & -> & Hf).
+    cbn [p_domain spec_provider] in Hd. injection Hd as <-. split; [|exact Hf]. spec_norm. reflexivity.
+  Qed.
+
+  Lemma slot_selections_spec accs slot sigs :
+    RUN (ReqSlotSelections accs slot) = Ok sigs ->
+    sigs = map (fun a => exp a (csr (u64_chunk slot) (get_domain H c DOMAIN_SELECTION_PROOF (slot / spe)))) accs.
+  Proof.
+    intros Hrun. cbn [run] in Hrun. apply sign_slot_selections_ok in Hrun as (domain & Hd & ->).
+    cbn [p_domain spec_provider] in Hd. injection Hd as <-. apply map_ext. intro a. spec_norm. reflexivity.
+  Qed.
+
+  Lemma sync_selections_spec accs slot subs sigs :
+    RUN (ReqSyncSelections accs slot subs) = Ok sigs ->
+    sigs = map (fun it => exp (fst it) (csr (htr_sync_selection_data H slot (snd it))
+                                            (get_domain H c DOMAIN_SYNC_COMMITTEE_SELECTION_PROOF (slot / spe))))
+               (combine accs subs).
+  Proof.
+    intros Hrun. cbn [run] in Hrun. apply sign_sync_selections_ok in Hrun as (dt & domain & Hdt & Hd & _ & ->).
+    cbn [spec_service s_sync_selection] in Hdt. injection Hdt as <-.
+    cbn [p_domain spec_provider] in Hd. injection Hd as <-. apply map_ext. intros [a sub]. spec_norm. reflexivity.
+  Qed.
+
+  Lemma aggregate_and_proof_spec a slot root sigs :
+    RUN (ReqAggregateAndProof a slot root) = Ok sigs ->
+    sigs = [sign (a_key a) (csr root (get_domain H c DOMAIN_AGGREGATE_AND_PROOF (slot / spe)))]
+    /\ a_fail a = false.
+  Proof.
+    intros Hrun. cbn [run] in Hrun. unfold one in Hrun.
+    destruct (sign_aggregate_and_proof _ _ _ _ _ _ _ _) as [s| |] eqn:Hs; try discriminate.
+    injection Hrun as <-. apply sign_aggregate_and_proof_ok in Hs as (domain & Hd & -> & Hf).
+    cbn [p_domain spec_provider] in Hd. injection Hd as <-. split; [|exact Hf]. spec_norm. reflexivity.
+  Qed.
+
+  Lemma sync_messages_spec accs ep root sigs :
+    RUN (ReqSyncRoots accs ep root) = Ok sigs ->
+    sigs = map (fun a => exp a (csr root (get_domain H c DOMAIN_SYNC_COMMITTEE ep))) accs.
+  Proof.
+    intros Hrun. cbn [run] in Hrun. apply sign_sync_roots_ok in Hrun as (dt & domain & Hdt & Hd & ->).
+    cbn [spec_service s_sync] in Hdt. injection Hdt as <-.
+    cbn [p_domain spec_provider] in Hd. injection Hd as <-. reflexivity.
+  Qed.
+
+  Lemma contributions_spec accs cps sigs :
+    RUN (ReqContributions accs cps) = Ok sigs ->
+    sigs = map (fun it => exp (fst it) (csr (htr_contribution_and_proof H (snd it))
+                                            (get_domain H c DOMAIN_CONTRIBUTION_AND_PROOF
+                                                        (co_slot (cp_contribution (snd it)) / spe))))
+               (combine accs cps).
+  Proof.
+    intros Hrun. cbn [run] in Hrun.
+    apply sign_contributions_ok in Hrun as (dt & cp0 & domain & Hdt & Hhd & Hlen & Hall & Hd & ->).
+    cbn [spec_service s_contribution] in Hdt. injection Hdt as <-.
+    cbn [p_domain spec_provider] in Hd. injection Hd as <-.
+    apply map_ext_in. intros [a cp] Hin. apply in_combine_r in Hin.
+    rewrite Forall_forall in Hall. specialize (Hall _ Hin).
+    unfold epoch_of in Hall. cbn [s_spe spec_service] in Hall. spec_norm. rewrite Hall. reflexivity.
+  Qed.
+
+  Lemma registration_spec a reg sigs :
+    RUN (ReqRegistration a reg) = Ok sigs ->
+    exists r, reg = Some r /\
+      sigs = [sign (a_key a) (csr (htr_registration H r)
+                                  (compute_domain H DOMAIN_APPLICATION_BUILDER (ch_genesis_version c) 0))]
+      /\ a_fail a = false.
+  Proof.
+    intros Hrun. cbn [run] in Hrun. unfold one in Hrun.
+    destruct (sign_registration _ _ _ _ _ _ _) as [s| |] eqn:Hs; try discriminate.
+    injection Hrun as <-. apply sign_registration_ok in Hs as (r & dt & domain & -> & Hdt & Hd & -> & Hf).
+    cbn [spec_service s_builder] in Hdt. injection Hdt as <-.
+    cbn [p_genesis spec_provider] in Hd. rewrite N.eqb_refl in Hd. injection Hd as <-.
+    exists r. repeat split; auto.
+  Qed.
 End SpecProofs.
